@@ -113,7 +113,7 @@ UNITS["C04"] = [
 
 UNITS["C17"] = [
     dict(kind="kani", name="c17_token", crate="kani/c17_token",
-         harnesses=[dict(name="token_decision_len2", tier="thorough", bound="configured token and presented token: printable ASCII, length <= 2 each (prefix / suffix / empty cases are inside the bound)"),
+         harnesses=[dict(name="token_decision_len2", bound="configured token and presented token: printable ASCII, length <= 2 each (prefix / suffix / empty cases are inside the bound)"),
                     dict(name="token_decision_len3", tier="thorough", bound="same, length <= 3")],
          trusted=["stand-ins for Agent::config, TypedHeader::token, axum StatusCode; real String/&str comparison as compiled by Kani"],
          assumptions=["helper functions called by the fragment are imported verbatim from the same file on demand"]),
